@@ -157,7 +157,7 @@ func (*Stream).rewriteGroupColumnRefs
 
 // starting the consumer touches none of the four books: rows emitted before Start stay accounted for
 func (*Stream).Start
-  props C19 C09 C05
+  props C19 C09 C05 C06 C12 C13 C14 C15 C16 C20
   modifies s.lifecycle, heap(cep.Engine.ctx), heap(cep.Engine.cancel), heap(cep.Engine.started), heap(cep.Engine.wg)
   ensures the-books-are-as-they-were: s.mInput.val == old(s.mInput.val) && s.mOutput.val == old(s.mOutput.val) && s.mInputDropped.val == old(s.mInputDropped.val) && s.mOutputDropped.val == old(s.mOutputDropped.val)
 
